@@ -16,6 +16,10 @@ CLAIMED = {
    technique="Lean 4 proof: counting invariant, pigeonhole, exhaustion-only-when-full, release-returns over the pool models; differential correspondence; abstract pool monitor on the implementation",
    text="Machine-checked theorems that Stats() figures equal the true holder count, exhaustion implies every unit is held, and a release returns the unit, for all histories; tied to /repo by differential execution; known finding KF-bitmap-wide excluded by an explicit clause.",
    note="Trusted: as C01. Bitmap theorems assume < 2^64 units (GoodCfg); the complement is recorded as a known finding."),
+ "C16": dict(design="DESIGN.md §7 C16",
+   technique="Lean 4 proof: exactly-once teardown invariant + induction over creation/termination histories of the SessionTeardown model, release lemmas over the PPPoE server model; differential correspondence against the real code; residue/double-stop monitors on the implementation",
+   text="Machine-checked theorems (stop_and_cleanup_at_most_once, terminated_holds_nothing, cleanup_idempotent, terminate_tears_down, padt_owner_only, padt_releases, lcp_term_releases) over executable Lean models of pkg/pppoe/teardown.go and the PPPoE server's termination paths for all histories incl. repeated terminations; tied to /repo by differential execution with a loopback RADIUS accounting server and recording callbacks.",
+   note="Trusted: Lean kernel + standard axioms; hand-written models validated by the correspondence run; harness and bngdrv. Concurrent terminations modelled as sequential (mutex-protected cleanup). DHCP termination paths are added by checks/c16_dhcp.py when built; the idle-sweep leak is a recorded known finding."),
 }
 NA_REASON = "not claimed in this revision: model, theorems and correspondence for this property are not built yet (see DESIGN.md §7 for the plan); no check is registered rather than registering a weaker technique"
 m = {
